@@ -291,12 +291,16 @@ running in lockstep):
     the full tape, so the truncated tape never exceeds the full one by more than that;
 (3) nothing is fabricated: every scalar of the truncated tape carries exactly the bytes the FULL
     input has at the scalar's offset, inside the truncated part.
-Missing for the full statement: the classification of those at most 13 tail tokens into (a) and
-(b), i.e. the comparison of the last iterations of the truncated run with the iterations of the
-full run on the same bytes (the lexeme-level part of it is `C19_scalar_not_merged` /
-`C19_quote_not_extended`), a sharp bound instead of 13, and what happens to the containers open at
-the split point (they keep their index and kind; the `end` / flag fields are written when they are
-closed).  With it `C19_text_tape_fields_partial` would lose its `_partial`.
+Sharper since: `C19_text_tape_tail_sharp` (at most SIX tail tokens, attained) and
+`C19_text_tape_boundary_cut` (cuts on lexeme boundaries: the truncated tape IS the full run's tape at
+that iteration, plus the EOF tolerance — only cases (a) and (c)).
+Still missing for the full statement: for cuts INSIDE a lexeme (or where the continuation starts
+with `=`, `[` or a byte that is not a boundary) the classification of the at most six tail tokens
+into (a) and (b) — the comparison of the last iterations with the full run's on the shortened
+lexeme (its lexeme-level part is `C19_scalar_not_merged` / `C19_quote_not_extended`) — and what
+happens to the containers open at the split point (they keep their index and kind; the `end` / flag
+fields are written when they are closed).  With it `C19_text_tape_fields_partial` would lose its
+`_partial`.
 -/
 theorem C19_text_tape_tail_partial (d : Bytes) (k : Nat) (T' T : List Tok) (b' b : Bool)
     (hk : k ≤ d.length) (hbom : hasBom (d.take k) = hasBom d)
@@ -356,6 +360,38 @@ example :
     parse [97, 61, 123, 98, 61, 99, 32, 100, 61, 101, 125] =
       .ok [.unquoted ⟨11, [97]⟩, .object 6 false, .unquoted ⟨8, [98]⟩, .unquoted ⟨6, [99]⟩,
         .unquoted ⟨4, [100]⟩, .unquoted ⟨2, [101]⟩, .endTok 1] false := by
+  decide +kernel
+
+/-- C19 (text tape), the sharp tail bound for ALL inputs and ALL cuts: behind the tape `C` of the
+split point the truncated tape has at most SIX tokens (three in the iteration that leaves fewer than
+two bytes, at most two for the last byte — KeyValueSeparator may insert `MixedContainer` and hand
+the byte on — and the `End` of the EOF tolerance), and `C` is not longer than the full tape; the
+common tokens and the scalar payloads are as in `C19_text_tape_tail_partial`. -/
+theorem C19_text_tape_tail_sharp (d : Bytes) (k : Nat) (T' T : List Tok) (b' b : Bool)
+    (hk : k ≤ d.length) (hbom : hasBom (d.take k) = hasBom d)
+    (h' : parse (d.take k) = .ok T' b') (h : parse d = .ok T b) :
+    ∃ C : List Tok,
+      C.length ≤ T'.length ∧ C.length ≤ T.length ∧ T'.length ≤ C.length + 6 ∧
+      (∀ i, i + 1 < C.length → NotOpen C i →
+        T'[i]? = C[i]? ∧ T[i]? = (C[i]?).map (Tok.shift (d.length - k))) ∧
+      (∀ s ∈ slices T', s.bytes.length ≤ s.tail ∧ s.tail ≤ k ∧
+        s.bytes = (d.drop (k - s.tail)).take s.bytes.length) := by
+  obtain ⟨st0, d0, fuel0, fuel1, bp, bd, hinv0, hshort, hrun0, hD⟩ := cut_split d k T' T b' b hk hbom h' h
+  refine ⟨st0.tape, run_len_le _ _ _ _ _ _ hinv0 hrun0, ?_, short_tail_sharp hshort _ _ _ hrun0, ?_,
+    scalars_from_full d k hk T' b' h'⟩
+  · have := run_len_le _ _ _ _ _ _ (hinv0.shift _) hD
+    simpa [St.shift_tape] using this
+  · intro i hi hn
+    refine ⟨run_settled _ _ _ _ _ _ i hinv0 hi hn hrun0, ?_⟩
+    have := run_settled _ _ _ _ _ _ i (hinv0.shift (d.length - k)) (by simpa [St.shift_tape] using hi)
+      (by simpa [St.shift_tape] using hn.shift (d.length - k)) hD
+    rw [this, St.shift_tape, getElem?_shift]
+
+/-- the bound is attained: `a={[[x] k }` (cut = whole input) — the split point is in front of `[[`
+(tape `a, Object`), behind it come `Parameter, Object, MixedContainer, Unquoted, End, End` -/
+example : parse [97, 61, 123, 91, 91, 120, 93, 32, 107, 32, 125] =
+    .ok [.unquoted ⟨11, [97]⟩, .object 7 false, .parameter ⟨6, [120]⟩, .object 6 true, .mixedContainer,
+      .unquoted ⟨3, [107]⟩, .endTok 3, .endTok 1] false := by
   decide +kernel
 
 /-- C19 (text tape), **cuts on lexeme boundaries** — for every input and every cut whose
